@@ -8,6 +8,9 @@ import itertools, os, random, sys
 sys.path.insert(0, os.path.dirname(os.path.abspath(__file__)))
 from shapes import DERIVED, NSLOT, NMOCK, NSEQ, NOBJ, NMON, NTR, INF, SCOPED_IDS, NONMOVABLE_IDS
 NM_ID = 3
+WM_ID = 4
+from shapes import WATCHED_IDS
+WM_SHAPES = sorted(WATCHED_IDS)
 NM_SHAPES = sorted(NONMOVABLE_IDS - SCOPED_IDS)
 NM_SCOPED = sorted(NONMOVABLE_IDS & SCOPED_IDS)
 
@@ -34,7 +37,7 @@ class Profile:
     def __init__(self, name, shapes, weights, nmock=2, nseq=2, nslot=NSLOT, args=(0, 1, 2), terms=TERMS_SMALL,
                  bounds=((1, 1), (0, 1), (1, 2), (2, 2), (0, INF), (1, INF), (0, 0), (2, 3)), se_beh=(0,), seglen=(8, 30),
                  allow_bad_bounds=True, forbid_seq=False, fns=(1, 2, 3, 4), tracer_kinds=(1, 2), multi_mon=True,
-                 prelude=(), scoped_shapes=tuple(sorted(SCOPED_IDS - NONMOVABLE_IDS)), use_nm=True):
+                 prelude=(), scoped_shapes=tuple(sorted(SCOPED_IDS - NONMOVABLE_IDS)), use_nm=True, use_wm=True):
         self.__dict__.update(locals())
 
     def gen_segment(self, rnd):
@@ -59,7 +62,8 @@ class Profile:
     def apply(self, k, L, rnd, add):
         P = self
         if k == 'mock':
-            free = [m for m in range(P.nmock) if m not in L.mocks] + ([NM_ID] if P.use_nm and NM_ID not in L.mocks else [])
+            free = [m for m in range(P.nmock) if m not in L.mocks] + ([NM_ID] if P.use_nm and NM_ID not in L.mocks else []) \
+                   + ([WM_ID] if P.use_wm and WM_ID not in L.mocks else [])
             if free:
                 m = rnd.choice(free); L.mocks.add(m); add('mock %d' % m)
         elif k == 'seq':
@@ -72,7 +76,7 @@ class Profile:
                 return
             s = rnd.choice(free)
             m = rnd.choice(sorted(L.mocks))
-            pool = NM_SHAPES if m == NM_ID else P.shapes
+            pool = NM_SHAPES if m == NM_ID else (WM_SHAPES if m == WM_ID else P.shapes)
             cands = [sh for sh in pool if DERIVED[sh]['nq'] <= len(L.seqs)]
             if not cands:
                 return
@@ -92,7 +96,7 @@ class Profile:
             if 3 in se:
                 # the effect calls a one-parameter function of some live mock (f(int) or v(int)) with an argument of the domain
                 nm_ = rnd.choice(sorted(L.mocks))
-                nest = (nm_, 1 if nm_ == NM_ID else rnd.choice([1, 1, 4]), rnd.choice(P.args), 0)
+                nest = (nm_, 1 if nm_ in (NM_ID, WM_ID) else rnd.choice([1, 1, 4]), rnd.choice(P.args), 0)
             add(expect_line(s, sh, m, p, w, se, 100 * s + rnd.randint(0, 9), lo, hi, (q[0], q[1]), nest))
             if not (d['rt'] and lo > hi):
                 L.slots[s] = sh
@@ -103,6 +107,8 @@ class Profile:
                 return
             s = rnd.choice(free)
             m = rnd.choice(sorted(L.mocks))
+            if m == WM_ID:
+                return
             sh = rnd.choice(NM_SCOPED if m == NM_ID else cands)
             d = DERIVED[sh]
             lo, hi = rnd.choice([b for b in P.bounds if b[0] <= b[1] and b[1] > 0])
@@ -135,7 +141,7 @@ class Profile:
             if not L.mocks:
                 return
             m = rnd.choice(sorted(L.mocks))
-            f = 1 if m == NM_ID else rnd.choice(P.fns)
+            f = 1 if m in (NM_ID, WM_ID) else rnd.choice(P.fns)
             add('call %d %d %d %d' % (m, f, rnd.choice(P.args), rnd.choice(P.args)))
         elif k == 'call_live':      # call a function that has a live expectation
             if not L.mocks or not L.slots:
@@ -143,7 +149,7 @@ class Profile:
             s = rnd.choice(sorted(L.slots))
             f = DERIVED[L.slots[s]]['fn']
             m = rnd.choice(sorted(L.mocks))
-            if m == NM_ID:
+            if m in (NM_ID, WM_ID):
                 f = 1
             add('call %d %d %d %d' % (m, f, rnd.choice(P.args), rnd.choice(P.args)))
         elif k == 'release':
@@ -155,7 +161,7 @@ class Profile:
                 m = rnd.choice(sorted(L.mocks)); L.mocks.discard(m); add('dmock %d' % m)
         elif k == 'mmock':
             free = [m for m in range(P.nmock) if m not in L.mocks]
-            movable = [m for m in sorted(L.mocks) if m != NM_ID]
+            movable = [m for m in sorted(L.mocks) if m not in (NM_ID, WM_ID)]
             if movable and free:
                 m = rnd.choice(movable); m2 = rnd.choice(free); L.mocks.add(m2); add('mmock %d %d' % (m, m2))
         elif k == 'dseq':
@@ -168,6 +174,8 @@ class Profile:
         elif k == 'watch':
             free = [x for x in range(1, NMON + 1) if x not in L.mons]
             objs = sorted(L.objs) if P.multi_mon else [o for o in sorted(L.objs) if o not in L.mons.values()]
+            if WM_ID in L.mocks and (P.multi_mon or WM_ID not in L.mons.values()):
+                objs = objs + [WM_ID]          # a requirement on the watched mock
             if free and objs:
                 kk = rnd.choice(free); o = rnd.choice(objs)
                 nq = rnd.choice([0, 1, 2]) if L.seqs else 0
